@@ -970,7 +970,8 @@ pub struct VPeer {
     /// 0 honest; byzantine answers to get requests: 1 item validly signed by another key, 2 value with
     /// another hash, 3 signed peers with one bad signature among good ones, 4 item signed for another
     /// salt, 5 bit-flipped value, 6 all-bad signed peers, 7 the genuine (key, seq, signature) of an
-    /// item some honest peer holds, with another value
+    /// item some honest peer holds, with another value, 8 the genuine item of the key under a salt that
+    /// differs from the requested one in a non-UTF-8 byte
     pub forge: u8,
     /// added to the network latency for this peer's replies
     pub extra_delay: u64,
@@ -1050,6 +1051,12 @@ impl VNet {
                             if let Some((_, k, seq, sig)) = self.peers.iter().find_map(|p| p.muts.get(&a.target)).cloned() {
                                 return MessageType::Response(ResponseSpecific::GetMutable(GetMutableResponseArguments { responder_id: me, token, nodes: n, v: b"FORGED value".to_vec().into_boxed_slice(), k, seq, sig }));
                             }
+                        }
+                        8 => {
+                            // the genuine item of the same key under ANOTHER salt, which differs from
+                            // the requested one only in a byte that is not valid UTF-8
+                            let item = MutableItem::new(&key_from_seed(9), b"signed under the other salt", 4, Some(b"\x80profile"));
+                            return MessageType::Response(ResponseSpecific::GetMutable(GetMutableResponseArguments { responder_id: me, token, nodes: n, v: item.value().to_vec().into_boxed_slice(), k: *item.key(), seq: item.seq(), sig: *item.signature() }));
                         }
                         2 => return MessageType::Response(ResponseSpecific::GetImmutable(GetImmutableResponseArguments { responder_id: me, token, nodes: n, v: b"not what you asked for".to_vec().into_boxed_slice() })),
                         _ => {}
@@ -1154,7 +1161,7 @@ pub fn known_signatures(f: &InFlight) -> Vec<String> {
             }
         }
     };
-    let salts: [Option<&[u8]>; 5] = [None, Some(b"salt"), Some(b"s"), Some(b"another"), Some(b"")];
+    let salts: [Option<&[u8]>; 7] = [None, Some(b"salt"), Some(b"s"), Some(b"another"), Some(b""), Some(b"\x80profile"), Some(b"\x81profile")];
     match &f.mt {
         MessageType::Response(ResponseSpecific::GetMutable(a)) => {
             for salt in salts {
@@ -1520,6 +1527,21 @@ pub fn run(out: &mut Out, seed: u64, thorough: bool, replay: Option<&str>) {
         d.api(format!("get_mut k={} salt={} seq=none", hex(key_from_seed(9).verifying_key().as_bytes()), hex(b"salt")));
         d.api("info".into());
         d.settle(20 * SEC, 10 * MS);
+        // a minute later everything is still found (a signed announcement is older than the 45 s
+        // window that only storing nodes apply to new announcements)
+        d.run_for(61 * SEC, SEC);
+        let g1 = d.api(format!("get_speers ih={}", hex(ih.as_bytes())));
+        d.settle(20 * SEC, 10 * MS);
+        let g2 = d.api(format!("get_peers ih={}", hex(ih.as_bytes())));
+        d.settle(20 * SEC, 10 * MS);
+        let g3 = d.api(format!("get_imm t={}", hex(target.as_bytes())));
+        d.settle(20 * SEC, 10 * MS);
+        for (g, what) in [(g1, "get_signed_peers"), (g2, "get_peers"), (g3, "get_immutable")] {
+            let got = d.results(g);
+            if !got.iter().any(|r| r.contains(":item:") || r.contains(":some:")) {
+                d.out.violation("C01", "stored-item-not-yielded", format!("{what} a minute after the write was acknowledged by every storing node yielded {:?}", got));
+            }
+        }
         d.finish();
         d.out.mark_distinct(d.rng.0 ^ n as u64);
         d.s.shutdown();
@@ -1625,6 +1647,56 @@ pub fn run(out: &mut Out, seed: u64, thorough: bool, replay: Option<&str>) {
         }
         d.finish();
         d.out.mark_distinct(fnv(format!("C2{forge}").as_bytes()));
+        d.s.shutdown();
+    }
+    // ---- C3: binary salts (C02): the item the key signed under salt 0x80"profile" is replayed to a
+    //          lookup of salt 0x81"profile"; the lookup of 0x80"profile" itself must find it
+    for honest in [0usize, 1] {
+        t0 += 10_000_000_000_000;
+        let mut net = VNet::new(&mut rng, 3, true);
+        for (i, p) in net.peers.iter_mut().enumerate() {
+            if i >= honest {
+                p.forge = 8;
+            }
+        }
+        let boot = vec![net.peers[0].addr];
+        let mut d = Driver::new(out, rng.next(), net);
+        d.begin("c", &boot, None, rng.next() % 1_000_000 + 1, t0);
+        d.run_for(2 * SEC, 10 * MS);
+        let pk = hex(key_from_seed(9).verifying_key().as_bytes());
+        d.api(format!("get_mut k={pk} salt={} seq=none", hex(b"\x81profile")));
+        d.settle(20 * SEC, 10 * MS);
+        let g = d.api(format!("get_mut k={pk} salt={} seq=none", hex(b"\x80profile")));
+        d.settle(20 * SEC, 10 * MS);
+        if honest == 0 && !d.results(g).iter().any(|r| r.contains("seq=4")) {
+            let got = d.results(g);
+            d.out.violation("C01", "stored-item-not-yielded", format!("every node serves the item signed under the binary salt 80\"profile\" but get_mutable yielded {:?}", got));
+        }
+        d.finish();
+        d.out.mark_distinct(fnv(format!("C3{honest}").as_bytes()));
+        d.s.shutdown();
+    }
+    // ---- N: round-trip times above the 500 ms floor drive the adaptive request timeout (C05, C09):
+    //         one very slow answer, then answers faster than the estimate, then slower again
+    for round in 0..(if thorough { 4 } else { 2 }) {
+        t0 += 10_000_000_000_000;
+        let net = VNet::new(&mut rng, 2 + round, true);
+        let boot = vec![net.peers[0].addr];
+        let mut d = Driver::new(out, rng.next(), net);
+        d.begin("c", &boot, None, rng.next() % 1_000_000 + 1, t0);
+        d.run_for(2 * SEC, 10 * MS);
+        let delays: [u64; 14] = [1300, 510, 510, 520, 505, 510, 700, 505, 505, 1900, 505, 510, 505, 900];
+        for (k, ms) in delays.iter().enumerate() {
+            for p in d.net.peers.iter_mut() {
+                p.extra_delay = ms * MS + (k as u64 % 3) * MS;
+            }
+            let t = Id::from_bytes(rng.id20()).expect("id");
+            d.api(format!("find_node t={}", hex(t.as_bytes())));
+            d.settle(20 * SEC, 10 * MS);
+            d.run("snap".into());
+        }
+        d.finish();
+        d.out.mark_distinct(fnv(format!("N{round}").as_bytes()));
         d.s.shutdown();
     }
     // ---- C': replay of a genuine (key, seq, signature) with another value, before and after the
